@@ -229,6 +229,13 @@ func runHistory(cs CaseSpec, mk func(nw *Network) []Monitor, after func(nw *Netw
 	return res
 }
 
+func raceSoaks(tier string) int {
+	if tier == "thorough" {
+		return 4
+	}
+	return 1
+}
+
 func init() {
 	register(&PropDef{
 		ID: "C01", Level: "exploration", Engine: "nodesim",
@@ -291,7 +298,16 @@ func init() {
 				soaks = 12
 			}
 			for i := 0; i < soaks; i++ {
-				cs = append(cs, CaseSpec{Kind: "soak", P: map[string]int64{"n": int64(3 + i%3), "txs": 240}})
+				c := CaseSpec{Kind: "soak", P: map[string]int64{"n": int64(3 + i%3), "txs": 240}}
+				if i%2 == 1 {
+					c.P["pace_us"] = 4000
+				}
+				cs = append(cs, c)
+			}
+			// the same live soak in a worker built with the race detector: other
+			// timing for the behavioural oracles, race reports for the evidence
+			for i := 0; i < raceSoaks(tier); i++ {
+				cs = append(cs, CaseSpec{Kind: "soak", P: map[string]int64{"n": int64(4 + i%2), "txs": 240, "pace_us": 30000}, S: map[string]string{"race": "1"}})
 			}
 			// the recorded history of the known finding (late validator-set change),
 			// kept in every tier and at every seed: thorough seed 1 case 26
@@ -354,7 +370,16 @@ func init() {
 				soaks = 12
 			}
 			for i := 0; i < soaks; i++ {
-				cs = append(cs, CaseSpec{Kind: "soak", P: map[string]int64{"n": int64(3 + i%3), "txs": 240}})
+				c := CaseSpec{Kind: "soak", P: map[string]int64{"n": int64(3 + i%3), "txs": 240}}
+				if i%2 == 1 {
+					c.P["pace_us"] = 4000
+				}
+				cs = append(cs, c)
+			}
+			// the same live soak in a worker built with the race detector: other
+			// timing for the behavioural oracles, race reports for the evidence
+			for i := 0; i < raceSoaks(tier); i++ {
+				cs = append(cs, CaseSpec{Kind: "soak", P: map[string]int64{"n": int64(4 + i%2), "txs": 240, "pace_us": 30000}, S: map[string]string{"race": "1"}})
 			}
 			return cs
 		},
@@ -422,7 +447,16 @@ func init() {
 				soaks = 12
 			}
 			for i := 0; i < soaks; i++ {
-				cs = append(cs, CaseSpec{Kind: "soak", P: map[string]int64{"n": int64(3 + i%3), "txs": 240}})
+				c := CaseSpec{Kind: "soak", P: map[string]int64{"n": int64(3 + i%3), "txs": 240}}
+				if i%2 == 1 {
+					c.P["pace_us"] = 4000
+				}
+				cs = append(cs, c)
+			}
+			// the same live soak in a worker built with the race detector: other
+			// timing for the behavioural oracles, race reports for the evidence
+			for i := 0; i < raceSoaks(tier); i++ {
+				cs = append(cs, CaseSpec{Kind: "soak", P: map[string]int64{"n": int64(4 + i%2), "txs": 240, "pace_us": 30000}, S: map[string]string{"race": "1"}})
 			}
 			return cs
 		},
